@@ -17,7 +17,8 @@ import (
 func tb1Owners(p *core.Prog, rep *core.Report) {
 	rep.Rule("TB1", "append-only ownership: file-system mutation primitives (remove, rename, truncate, create/open-for-write, write) are called only by package fio, Open, Merge, the merge-adoption function and utils.CopyDir; data files are opened without O_TRUNC and, for standard I/O, with O_APPEND; (*os.File).Truncate is called only by MMap's size management")
 	m := newMergeCtx(p, rep)
-	owner := func(fn *ssa.Function) bool {
+	var owner func(fn *ssa.Function, depth int) bool
+	owner = func(fn *ssa.Function, depth int) bool {
 		for fn.Parent() != nil {
 			fn = fn.Parent()
 		}
@@ -26,6 +27,19 @@ func tb1Owners(p *core.Prog, rep *core.Report) {
 		}
 		if fn == m.adopt || fn == m.merge || fn == p.Func(core.ModPath, "Open") || fn == p.Func(core.ModPath+"/utils", "CopyDir") {
 			return true
+		}
+		// an unexported helper all of whose call sites are in owners (extracted code)
+		if depth < 3 && fn.Object() != nil && !fn.Object().Exported() {
+			sites := libCallSites(p, fn)
+			if len(sites) > 0 {
+				all := true
+				for _, s := range sites {
+					if !owner(s.Parent(), depth+1) {
+						all = false
+					}
+				}
+				return all
+			}
 		}
 		return false
 	}
@@ -43,7 +57,7 @@ func tb1Owners(p *core.Prog, rep *core.Report) {
 					continue
 				}
 				n++
-				if !owner(fn) {
+				if !owner(fn, 0) {
 					bad = append(bad, fmt.Sprintf("%s calls %s at %s", core.FuncKey(fn), name, p.InstrPos(in)))
 				}
 				if name == "(*os.File).Truncate" && core.RecvNamed(fn) != p.R.MMap {
